@@ -408,11 +408,15 @@ func runC18(c *hc.Ctx) error {
 		if sumOut.Cmp(sumNorm) != 0 {
 			c.Violate(hc.Violation{What: "signed area of the returned geometry differs from the signed area of the routed boundary", Input: caseJSON(g, poly, ids, cfg, r), Observed: sumOut.String(), Expected: sumNorm.String()})
 		}
-		c.Case(snapCaseTerm(g, poly, ids, cfg, r), caseJSON(g, poly, ids, cfg, r))
+		c.Case("SnapC ("+snapCaseTerm(g, poly, ids, cfg, r)+")", caseJSON(g, poly, ids, cfg, r))
 		if c.Sum.Evaluations <= 3 {
 			c.Sample(caseJSON(g, poly, ids, cfg, r))
 		}
 	}
+	// component level: every chain in the class (each centre at most twice) over 4 centres (length <= 8) and
+	// 5 centres up to length 9: directed edges conserved modulo cancellation by the implementation's spike removal
+	chainStream(c, 4, 8, 2, true, true)
+	chainStream(c, 5, c.N(8, 10), 2, !c.Quick(), true)
 	return nil
 }
 
